@@ -199,7 +199,7 @@ func runC04One(cs *vrt.Case) {
 		}
 		c04Whole(cs, r)
 	case 3, 4:
-		if cs.Idx%12 == 3 {
+		if (cs.Idx/6)%6 == 5 && cs.Idx%6 == 3 {
 			c04Dying(cs, r, true)
 			return
 		}
@@ -343,6 +343,14 @@ func c04Deviating(cs *vrt.Case, r *vrt.Rng) {
 // beyond them. The transcript of the second session - aborted or not - is
 // scanned for R and for pairs differing by R.
 func c04Dying(cs *vrt.Case, r *vrt.Rng, stream bool) {
+	for trial := 0; trial < 3; trial++ {
+		if !c04DyingOnce(cs, r, stream) {
+			return
+		}
+	}
+}
+
+func c04DyingOnce(cs *vrt.Case, r *vrt.Rng, stream bool) bool {
 	seed := r.U64() | 1
 	fail := 48 + r.Intn(16*40) // after the 32-byte key and the 16-byte offset
 	var R ot.Label
@@ -352,19 +360,22 @@ func c04Dying(cs *vrt.Case, r *vrt.Rng, stream bool) {
 	if !stream {
 		c, what := twoPartyCircuit(cs, r, cs.Idx/6, vrt.Pick(r, []int{10, 80}))
 		if c == nil {
-			return
+			return true
 		}
 		x, y := r.Big(int(c.Inputs[0].Type.Bits)), r.Big(int(c.Inputs[1].Type.Bits))
-		fail = 48 + r.Intn(16*2*(c.Inputs.Size()+1))
+		fail = 48 + r.Intn(16*(c.Inputs.Size()+1)) // mostly while the input wires are labelled
+		if r.Intn(4) == 0 {
+			fail = 48 + r.Intn(16*2*(c.Inputs.Size()+1))
+		}
 		otk := r.Intn(2)
 		h := runYao(r, c, x, y, yaoOpts{ot: otk, kind: 2, record: true, stallWin: 30 * time.Second, randSeed: seed})
 		if firstPanic(h.g, h.e) != nil || h.g.err != nil || h.e.err != nil {
 			cs.Inconc("healthy session did not complete (C02's business)")
-			return
+			return false
 		}
 		var ok bool
 		if R, ok = deltaOf(cs, h.rec.Sent, "whole"); !ok {
-			return
+			return false
 		}
 		f := runYao(r, c, x, y, yaoOpts{ot: otk, kind: 2, record: true, stallWin: 20 * time.Second, randSeed: seed, randFailAfter: fail})
 		t = f.d.link.Transcript(0)
@@ -381,11 +392,11 @@ func c04Dying(cs *vrt.Case, r *vrt.Rng, stream bool) {
 		h := runStream(r, p.src, nil, gIn, eIn, yaoOpts{ot: 0, kind: 2, record: true, stallWin: 30 * time.Second, randSeed: seed})
 		if firstPanic(h.g, h.e) != nil || h.g.err != nil || h.e.err != nil {
 			cs.Inconc("healthy streaming session did not complete (C05's business)")
-			return
+			return false
 		}
 		var ok bool
 		if R, ok = deltaOf(cs, h.rec.Sent, "stream"); !ok {
-			return
+			return false
 		}
 		f := runStream(r, p.src, nil, gIn, eIn, yaoOpts{ot: 0, kind: 2, record: true, stallWin: 20 * time.Second, randSeed: seed, randFailAfter: fail})
 		t = f.d.link.Transcript(0)
@@ -409,6 +420,7 @@ func c04Dying(cs *vrt.Case, r *vrt.Rng, stream bool) {
 		}
 		break
 	}
+	return true
 }
 
 func c04Whole(cs *vrt.Case, r *vrt.Rng) {
@@ -520,11 +532,13 @@ func clipStrings(in []string) []string {
 }
 
 func c04Stream(cs *vrt.Case, r *vrt.Rng) {
-	p := c04StreamPrograms[(cs.Idx/6)%len(c04StreamPrograms)]
+	// families by (Idx/6)%6: 0,3 the fixed programs (in turn); 1,4 native circuits; 2,5 operator-then-AND
+	fam := (cs.Idx / 6) % 6
+	p := c04StreamPrograms[(cs.Idx/6/3+cs.Idx%2)%len(c04StreamPrograms)]
 	gIn, eIn := p.gIn(r), p.eIn(r)
 	src, srcName := p.src, ""
-	var progDesc any = (cs.Idx / 6) % len(c04StreamPrograms)
-	if cs.Idx%12 == 10 || cs.Idx%12 == 3 && cs.Idx%24 != 3 {
+	var progDesc any = (cs.Idx/6/3 + cs.Idx%2) % len(c04StreamPrograms)
+	if fam == 2 || fam == 5 {
 		// "operator then AND" family: the result of one operator or builtin (every
 		// streamed builder writes straight into its output wires) feeds AND gates:
 		// a result wire the builder left undriven, or drove with a degenerate
@@ -532,7 +546,7 @@ func c04Stream(cs *vrt.Case, r *vrt.Rng) {
 		W := vrt.Pick(r, []int{8, 16, 32, 64})
 		ops := []string{"binary.HammingDistance(a, b)", "a * b", "a / (b | 1)", "a - b", fmt.Sprintf("a << %d", r.Range(1, W-1)), "a &^ b", "-a", "a % (b | 1)",
 			"a + b", fmt.Sprintf("a >> %d", r.Range(1, W-1)), "a | b", "a ^ b", "a + 1"}
-		op := ops[(cs.Idx/12)%len(ops)] // every operator in turn (the first eight in a quick run)
+		op := ops[(cs.Idx/36*2+cs.Idx%2)%len(ops)] // every operator in turn
 		imp := ""
 		if strings.Contains(op, "binary.") {
 			imp = "import (\n\t\"encoding/binary\"\n)\n\n"
@@ -542,7 +556,7 @@ func c04Stream(cs *vrt.Case, r *vrt.Rng) {
 		progDesc = "operator-then-AND family: " + op
 		cs.Count("sessions_stream_operator_then_and", 1)
 		cs.Seen("operators_streamed_into_and_gates", strings.Fields(strings.ReplaceAll(op, "(", " "))[0]+" "+op)
-	} else if cs.Idx%12 == 9 || cs.Idx%12 == 4 {
+	} else if fam == 1 || fam == 4 {
 		// a program around a harness-generated native circuit file (all five
 		// gate types, outputs that feed later gates), see c05NativeProgram
 		dir, file, nsrc, g, e, err := c05NativeProgram(r)
